@@ -326,6 +326,13 @@ impl Store {
                         None => (None, 0),
                     };
 
+                    // History may already have delivered `limit` frames
+                    if let Some(limit) = limit {
+                        if count >= limit {
+                            return;
+                        }
+                    }
+
                     let mut broadcast_rx = broadcast_rx;
                     while let Ok(frame) = broadcast_rx.recv().await {
                         // Skip frames that do not match the context_id
